@@ -358,11 +358,7 @@ func c18cluster(c *core.Ctx) {
 	}
 	const single, all = "cluster.Service.checkCommandPerm", "cluster.Service.checkCommandPermAll"
 	actions := 0
-	an.Instrs(fn, func(in ssa.Instruction) {
-		ci, ok := in.(ssa.CallInstruction)
-		if !ok {
-			return
-		}
+	visit := func(in ssa.Instruction, ci ssa.CallInstruction) {
 		f := recvField(ci, "Service")
 		if f != "db" && f != "mgr" {
 			return
@@ -450,6 +446,25 @@ func c18cluster(c *core.Ctx) {
 			}
 			for _, h := range hits {
 				c.Bad("C18.b", "DOM", construct+":payload", pos, key+" is reachable with a nil "+act.getter+"() payload", an.PathString(fn, h.Path, c.P.Pos))
+			}
+		}
+	}
+	an.Instrs(fn, func(in ssa.Instruction) {
+		ci, ok := in.(ssa.CallInstruction)
+		if !ok {
+			return
+		}
+		if f := recvField(ci, "Service"); f == "db" || f == "mgr" {
+			visit(in, ci)
+			return
+		}
+		// an action moved into a private helper of handleConn happens at the helper's call site
+		if g := ci.Common().StaticCallee(); g != nil && g != fn && len(g.Blocks) > 0 && an.StepPolicy != nil && an.StepPolicy(g) {
+			for _, inner := range an.AllCalls(g, false) {
+				if f := recvField(inner, "Service"); f == "db" || f == "mgr" {
+					c.Touch(g)
+					visit(in, inner)
+				}
 			}
 		}
 	})
